@@ -114,6 +114,8 @@ def random_hists(rng, n):
                 attrs.append(("Parent", rng.sample(parents, rng.choice([1, 1, 2]))))
             if rng.random() < 0.3:
                 attrs.append(("Note", [rng.choice(["x", "y"]), rng.choice(["x", "z"])][: rng.choice([1, 2])]))
+            if rng.random() < 0.25:     # attribute keys that are also names of columns / of Feature fields
+                attrs.append((rng.choice(["source", "score", "strand", "seqid", "featuretype", "frame", "id", "extra", "bin"]), [rng.choice(["curated", "predicted", "7"])]))
             arr.append(G.feat("exon", rng.choice([1, 1, 2, 3]), 9, attrs, source=rng.choice(["s", "s", "t", "u"]),
                               strand=rng.choice(["+", "+", "-"]), score=rng.choice([".", ".", "5"])))
         k = rng.choice([0, 0, 1, 2])
